@@ -5,7 +5,7 @@ from concurrent.futures import ThreadPoolExecutor
 
 VERIF = os.path.dirname(os.path.dirname(os.path.abspath(__file__)))
 REPO = os.environ.get('XV_REPO', '/repo')
-BUILD = os.path.join(VERIF, '.build')
+BUILD = os.environ.get('XV_BUILD', os.path.join(VERIF, '.build'))
 WORKROOT = os.path.join(VERIF, '.work')
 SPEC = os.path.join(VERIF, 'spec')
 EVID = os.path.join(VERIF, 'evidence')
@@ -377,6 +377,9 @@ def write_replay(ctx, tag, driver, module, consts, diag, num, extra_args=''):
     return p
 
 
+POST = {}   # driver -> post-processing of raw traces (applied to explorations by the property module and to replays here)
+
+
 def replay(ctx, path, steps=False):
     """re-run a replay file against the current tree; returns (rejected?, validation result)"""
     body = json.load(open(path))
@@ -393,6 +396,8 @@ def replay(ctx, path, steps=False):
         raise Infra('replay did not run')
     xs = json.loads(m.group(1))
     xs.update({'trace': out, 'driver': body['driver']})
+    if body['driver'] in POST and not steps:
+        POST[body['driver']](os.path.join(BUILD, body['driver']), out)
     if steps:
         return xs
     res = validate(ctx, 'replay_%d' % (hash(path) % 100000), body['trace_spec'], xs, body['consts'])
@@ -493,7 +498,8 @@ def finish(ctx, level_rule, assumptions, extra_cov=None):
     ev = {'property_id': ctx.pid, 'tier': ctx.tier, 'seed': ctx.seed, 'level': 'model_checking', 'coverage': cov,
           'assumptions': assumptions, 'wall_s': round(time.time() - ctx.t0, 1), 'violations': len(ctx.violations)}
     os.makedirs(EVID, exist_ok=True)
-    json.dump(ev, open(os.path.join(EVID, ctx.pid + '.json'), 'w'), indent=1)
+    if not os.environ.get('XV_NOEVIDENCE'):
+        json.dump(ev, open(os.path.join(EVID, ctx.pid + '.json'), 'w'), indent=1)
     for k in ctx.known_hits:
         print('KNOWN-FINDING: property=%s %s' % (ctx.pid, k))
     for v in ctx.violations:
